@@ -126,6 +126,29 @@ def _flag_reshape():
     raise ShapeError("eval_dyad_reshape: assignment to j not found")
 
 
+def _kg_equal_fn():
+    cls = astlib.find_class(astlib.module("klongpy/backends/base.py"), "BackendProvider")
+    return astlib.find_func(cls, "kg_equal")
+
+
+def _flag_ints_exact():
+    fn = _kg_equal_fn()
+    for st in ast.walk(fn):
+        if isinstance(st, ast.If) and ast.unparse(st.test).replace(" ", "") == "self.is_number(a)andself.is_number(b)":
+            first = st.body[0]
+            return (isinstance(first, ast.If)
+                    and ast.unparse(first.test).replace(" ", "") == "self.is_integer(a)andself.is_integer(b)"
+                    and len(first.body) == 1 and isinstance(first.body[0], ast.Return)
+                    and ast.unparse(first.body[0].value).replace(" ", "") == "bool(a==b)" and not first.orelse)
+    raise ShapeError("kg_equal: numeric scalar branch not found")
+
+
+def _flag_no_shape_exit():
+    """kg_equal never consults .shape (an early exit on unequal shapes would make Match depend on the representation)"""
+    fn = _kg_equal_fn()
+    return not any(isinstance(n, ast.Attribute) and n.attr == "shape" for n in ast.walk(fn))
+
+
 def coq_zs(s):
     return "[" + "; ".join(str(ord(c)) for c in s) + "]"
 
@@ -152,7 +175,8 @@ def generate():
         out.append("Definition dyad_table : list (list Z * string) :=\n  [" +
                    ";\n   ".join("(%s%%Z, %s)" % (coq_zs(k), astlib.coq_string(f)) for k, f in dy) + "].")
     for name, fn in (("reverse_guards_atoms", _flag_reverse), ("rotate_uses_axis0", _flag_rotate),
-                     ("split_by_segment_size", _flag_split), ("reshape_guards_symbols", _flag_reshape)):
+                     ("split_by_segment_size", _flag_split), ("reshape_guards_symbols", _flag_reshape),
+                     ("kg_equal_ints_exact", _flag_ints_exact), ("kg_equal_no_shape_exit", _flag_no_shape_exit)):
         v, why = astlib.try_flag(fn)
         out.append("Definition %s : bool := %s.%s" % (name, astlib.coq_bool(bool(v)),
                                                     "" if why is None else "  (* shape not recognised: %s *)" % why))
@@ -457,7 +481,7 @@ def rep_cases(keys_m, keys_d, U, tier, rng):
         for v, name, tx in ops:
             t, x = v
             nested = t == "l" and any(e[0] == "l" for e in x)
-            if nested or name in ("drop-of-mixed", "join-of-halves"):
+            if (nested and name in ("drop-of-mixed", "join-of-halves")) or (not nested and name == ("drop-of-mixed" if t == "l" else "join-of-halves")):
                 keep.append((v, name, tx))
         ops = keep
     cs = []
@@ -466,7 +490,7 @@ def rep_cases(keys_m, keys_d, U, tier, rng):
             if f in keys_m and not hangs(f, v, None):
                 cs.append(Case(f, keys_m[f], v, ta=tx))
         partners = rep_partners(v)
-        if tier != "thorough" and not (v[0] == "l" and any(e[0] == "l" for e in v[1])):
+        if tier != "thorough":
             partners = partners[:2] + [I(1), I(-1), lit([0, 1])]
         for f in MODELLED_DYADS:
             if f not in keys_d:
@@ -612,7 +636,10 @@ def evaluate(chk, cases, out, seen):
 
 # verbs whose known-finding class depends on the in-memory representation of an operand, not only on its value:
 # np.minimum / np.maximum / np.fmod have no usable object loop, and a computed list of rows IS an object array
-REP_CLASS = {"eval_dyad_minimum": "no-object-loop", "eval_dyad_maximum": "no-object-loop", "eval_dyad_remainder": "no-object-loop"}
+REP_CLASS = {"eval_dyad_minimum": "no-object-loop", "eval_dyad_maximum": "no-object-loop", "eval_dyad_remainder": "no-object-loop",
+             # a computed list of rows is a 1-D object array: against a literal matrix NumPy aligns trailing axes
+             "eval_dyad_add": "broadcast", "eval_dyad_subtract": "broadcast", "eval_dyad_multiply": "broadcast", "eval_dyad_divide": "broadcast",
+             "eval_monad_expand_where": "expand-empty", "eval_monad_transpose": "transpose-object-rows"}
 
 # witnesses of the Coq `_refuted` theorems, replayed on the implementation at every run: class -> (function, a, b)
 WITNESSES = {
@@ -690,6 +717,11 @@ def run(tier, replay=None):
     B = 20000
     for i in range(0, len(cases), B):
         evaluate(chk, cases[i:i + B], out, seen)
+    # step 3b: representation variation (operands computed by value-preserving routes instead of written as literals)
+    rcases, nops = rep_cases(keys_m, keys_d, U, tier, rng)
+    chk.count("representation_variant_operands", nops)
+    for i in range(0, len(rcases), B):
+        evaluate(chk, rcases[i:i + B], out, seen)
     for k, h in out.known_hits.items():
         chk.finding("C01-" + k, "known-finding class %s: %s gives %s, reference prescribes %s" % (k, h["klong"], h["actual"], h["expected"]), h)
 
@@ -726,6 +758,9 @@ def run(tier, replay=None):
         rule="closed operand universe U (%d values: ints, reals, chars, symbols, strings of length 0-9, int/real/mixed vectors, char lists, "
              "matrices 1x1..3x4, a 2x2x3 array, ragged/nested lists to depth 3, lists with strings/symbols/[]/\"\"); quick = every modelled monad x U, "
              "every dyad pair with a count operand for the count verbs, every pair of two non-list operands, plus a seeded sample of 12000 of the remaining pairs; thorough = full product. "
+             "representation variation: list/string operands of U rebuilt by value-preserving routes (drop / take of a mixed list, reverse twice, "
+             "take all, join of halves; kept only when the canonical value equals the literal's) under every modelled verb against the value itself, "
+             "a wrapping list and count/atom partners, judged by the extracted spec. "
              "distinct_nontrivial = distinct in-domain cases with a list or string operand" % len(U),
         trusted_base=TRUSTED, assumptions=ASSUME,
         extra={"outside_domain_model_mismatches": out.outside_mismatch[:12], "universe_size": len(U)})
